@@ -152,3 +152,71 @@ def make_ezsp(loop: VLoop, version: int, gw: FakeGateway | None = None):
     ezsp._protocol = handler_class(version)(ezsp.handle_callback, gw)
     ezsp.start_ezsp()
     return ezsp, gw
+
+
+class NcpSim:
+    """Frame-level EZSP NCP behind a FakeGateway (or any transport that calls ``on_request``).
+
+    ``handlers[name](args: dict) -> list of response values | None (no reply)``.  Unknown commands get
+    ``default(name, args)`` (if set) or no reply.  Every request is logged as (time, name, args, raw).
+    The sequence number of callbacks is that of the last answered command."""
+
+    def __init__(self, loop, version, deliver):
+        self.loop = loop
+        self.version = version
+        self.cls = handler_class(min(version, 14) if version in VERSIONS else 14)
+        self.by_id = {cid: (name, tx, rx) for name, (cid, tx, rx) in self.cls.COMMANDS.items()}
+        self.deliver = deliver
+        self.handlers = {}
+        self.default = None
+        self.log = []
+        self.unparsed = []
+        self.last_seq = 0
+        self.framing = version          # version whose header layout the NCP currently speaks
+
+    def on_request(self, data: bytes):
+        import bellows.types as t
+
+        hdr = dec_hdr(self.framing, data)
+        if hdr is None:
+            self.unparsed.append((self.loop.time(), data))
+            return
+        seq, fid, payload = hdr
+        ent = self.by_id.get(fid)
+        if ent is None:
+            self.unparsed.append((self.loop.time(), data))
+            return
+        name, tx, rx = ent
+        try:
+            args, rest = t.deserialize_dict(payload, tx) if isinstance(tx, dict) else ({}, b"")
+        except Exception:
+            self.unparsed.append((self.loop.time(), data))
+            return
+        self.log.append((self.loop.time(), name, args, data))
+        h = self.handlers.get(name)
+        vals = h(args) if h is not None else (self.default(name, args) if self.default else None)
+        if vals is None:
+            return
+        self.last_seq = seq
+        frame = enc_response_hdr(self.framing, seq, fid) + encode_values(rx, vals)
+        self.deliver(frame)
+
+    def emit(self, name, vals):
+        cid, tx, rx = self.cls.COMMANDS[name]
+        frame = enc_response_hdr(self.framing, self.last_seq, cid, callback=True) + encode_values(rx, vals)
+        self.deliver(frame)
+
+
+def make_stack(loop, version, deliver_soon=True):
+    """EZSP + handler(version) + FakeGateway + NcpSim answering through EZSP.frame_received."""
+    ezsp, gw = make_ezsp(loop, version)
+
+    def deliver(frame):
+        if deliver_soon:
+            loop.call_soon(ezsp.frame_received, frame)
+        else:
+            ezsp.frame_received(frame)
+
+    ncp = NcpSim(loop, version, deliver)
+    gw.on_send = ncp.on_request
+    return ezsp, gw, ncp
